@@ -2,7 +2,9 @@ package main
 
 import (
 	"fmt"
+	"github.com/my-cloud/ruthenium/validatornode/domain/clock"
 	"strings"
+	"time"
 
 	"github.com/my-cloud/ruthenium/validatornode/domain/ledger"
 )
@@ -76,6 +78,13 @@ func runAcceptSuite(seed uint64, n int, out *Out, stats *Stats) {
 		r := NewRng(seed*104729 + uint64(i))
 		set := pickSettings(r)
 		set.Limit = 1440
+		engineTick := i%16 == 5
+		if engineTick {
+			// the block under test is produced at the tick a real Engine delivers, its period wired as
+			// in main.go from the decoded settings (interval 2 s, timeout 1 s)
+			set.Interval = int64(2 * time.Second)
+			set.Timeout = time.Second
+		}
 		w := &World{r: r, set: set, stats: stats, mode: "honest"}
 		for k := 0; k < 5; k++ {
 			w.wallets = append(w.wallets, NewWallet(k))
@@ -175,7 +184,21 @@ func runAcceptSuite(seed uint64, n int, out *Out, stats *Stats) {
 		lenBefore := len(A.AllBlocks())
 		sync1, sync2 := inSync(b1), inSync(b2)
 		w.now += set.Interval
-		A.Pool.Validate(w.now)
+		tick := w.now
+		if engineTick {
+			// the clock reads one second and two milliseconds before the tick: an engine of period 2 s
+			// waits for the tick, one of period 1 s (timer decoded from the timeout) fires a second early
+			watch := &ScriptWatch{readings: []int64{w.now - int64(time.Second) - int64(2*time.Millisecond)}}
+			var stamps []int64
+			e := clock.NewEngine(func(ts int64) { stamps = append(stamps, ts) }, watch, set.ValidationTimer(), 1, 0)
+			e.Pulse()
+			if len(stamps) == 1 {
+				tick = stamps[0]
+			}
+			kinds = append(kinds, "engine-tick")
+			stats.Count("accept/engine-driven tick")
+		}
+		A.Pool.Validate(tick)
 		A.Log.Take()
 		if len(A.AllBlocks()) == lenBefore {
 			stats.Count("accept/no-block")
